@@ -17,6 +17,8 @@ use tracing::debug;
 pub struct SystemState {
     pub streams: AHashMap<u32, StreamState>,
     pub users: AHashMap<u32, UserState>,
+    /// The ID given to the most recently created user during replay (users are numbered in creation order).
+    pub current_user_id: u32,
 }
 
 #[derive(Debug)]
@@ -372,7 +374,11 @@ impl SystemState {
             }
         }
 
-        let state = SystemState { streams, users };
+        let state = SystemState {
+            streams,
+            users,
+            current_user_id,
+        };
         debug!("+++ State +++");
         debug!("{state}");
         debug!("+++ State +++");
